@@ -507,14 +507,17 @@ def opEnc2 (args : List String) (impl : String) : Verdict :=
       let tree : Tree := ⟨d.length, bs⟩
       let sink : Sink HB := { ob := { kind := .postMem, root := st.root, tree, data := zerosN tree.outboardSize }, target := zerosN d.length }
       let run := decodeRanges hf .sync e2 q1 sink
-      let m := s!"{dig e1} {dig e2} {decEndStr run.terminal}"
+      let sink2 : Sink HB := { ob := { kind := .preMem, root := st.root, tree, data := zerosN tree.outboardSize }, target := zerosN d.length }
+      let run2 := decodeRanges hf .fsm e1 q2 sink2
+      let m := s!"{dig e1} {dig e2} {decEndStr run.terminal} {decEndStr run2.terminal}"
       let same := (List.range (Spec.nChunks d.length)).all fun c => Spec.selected d.length q1 c == Spec.selected d.length q2 c
       let sf : Option String :=
         if !same then none else
         match impl.splitOn " " with
-        | [a, b', t] =>
+        | [a, b', t, t2] =>
           if a != b' then some "equivalent queries encode differently"
-          else if t != "Done" then some s!"cross decode: {t}"
+          else if t != "Done" then some s!"cross decode (sync, q1 on the encoding of q2): {t}"
+          else if t2 != "Done" then some s!"cross decode (fsm, q2 on the encoding of q1): {t2}"
           else none
         | _ => some "malformed"
       { model := m, specFail := sf, nontrivial := same && !e1.isEmpty }
